@@ -17,6 +17,7 @@ from simkit.cluster import Fault, SimCluster  # noqa: E402
 from simkit.loop import SimDeadlock, run_sim  # noqa: E402
 
 from aiokafka import AIOKafkaConsumer, ConsumerRebalanceListener  # noqa: E402
+from aiokafka.structs import TopicPartition  # noqa: E402
 from aiokafka.coordinator.assignors.range import RangePartitionAssignor  # noqa: E402
 from aiokafka.coordinator.assignors.roundrobin import RoundRobinPartitionAssignor  # noqa: E402
 from aiokafka.coordinator.assignors.sticky.sticky_assignor import StickyPartitionAssignor  # noqa: E402
@@ -289,7 +290,16 @@ def run_scenario(sc):
         plan = {int(k): v for k, v in (fp.get("plan") or {}).items()}
         counter = {"n": 0, "on": False}
 
+        api_faults = sc.get("api_faults") or []      # [{"client", "api", "nth", "kind", "code"?, "delay"?}]
+        per_client = {}
+
         def fault_for(info):
+            if api_faults and counter["on"]:
+                key = (info.get("client"), info["api"])
+                per_client[key] = per_client.get(key, 0) + 1
+                for af in api_faults:
+                    if (af["client"], af["api"]) == key and af["nth"] == per_client[key]:
+                        return Fault(af["kind"], af.get("code", 0), af.get("delay", 0.0))
             if info["api"] not in apis or not counter["on"]:
                 return None
             counter["n"] += 1
@@ -455,7 +465,15 @@ def run_scenario(sc):
                         end = loop.time() + op[1]
                         while loop.time() < end:
                             try:
-                                batch = await c.getmany(timeout_ms=int(op[2] * 1000), max_records=op[3])
+                                if cfg.get("consume_api") == "getone":
+                                    # the application blocks in getone() (as `async for` does), one record at a time
+                                    try:
+                                        m1 = await asyncio.wait_for(c.getone(), timeout=max(op[2], 0.05))
+                                        batch = {TopicPartition(m1.topic, m1.partition): [m1]}
+                                    except asyncio.TimeoutError:
+                                        batch = {}
+                                else:
+                                    batch = await c.getmany(timeout_ms=int(op[2] * 1000), max_records=op[3])
                             except Exception as e:  # noqa: BLE001
                                 res["errors"].append({"t": loop.time(), "exc": type(e).__name__})
                                 net.ev("api_error", c=name, exc=type(e).__name__)
